@@ -68,3 +68,9 @@ M.append({"name": "b_rename_internal_helpers", "expect": [], "note": "sed-style 
           "rename": [("handle_unwind", "with_recovery"), ("get_locks_unsorted", "listed_locks"), ("get_locks", "sorted_locks"),
                      ("ordered_contains_duplicates", "has_adjacent_duplicates"), ("KeyCell", "KeyFlag"),
                      ("clear_poison", "clear_poison"), ("ordered_write", "blocking_write_all")]})
+
+# ---- behaviour-preserving refactors written by sub-agents (round B1); each was reviewed before being added -------------------
+import glob as _glob
+import os as _os
+for _p in sorted(_glob.glob(_os.path.join(_os.path.dirname(_os.path.abspath(__file__)), "benign_patches", "*.diff"))):
+    M.append({"name": "bp_" + _os.path.basename(_p)[:-5], "expect": [], "patch": _p, "note": "see benign_patches/*_notes.txt"})
